@@ -396,9 +396,34 @@ def arity_case(draw, fmt):
                 cells = cells[1:]
             else:
                 cells = cells[1:-1]
+        elif ncols < 100 and draw(st.integers(0, 15)) == 0:
+            # a well-formed row with one very long cell (a JSON dump, a long multi-value list): 66 000 - 120 000 characters, below
+            # the csv module's 131 072-character field limit
+            cells = {'cells': cells, 'long': [draw(st.integers(0, ncols - 1)), draw(st.integers(66_000, 120_000))]}
+        if not ok and fmt == 'csv' and ncols >= 2 and draw(st.integers(0, 3)) == 0:
+            # a record cut inside a quoted field (interrupted write): the quote is never closed on this line -> too few fields
+            j = draw(st.integers(0, ncols - 2))
+            cells = {'raw': ','.join(render_csv([c]) for c in row_strategy_cells(draw, ncols, no_tab)[:j]) +
+                     (',' if j else '') + '"' + draw(st.sampled_from(['blue sho', 'x', 'a,b', '']))}
         rows.append(cells)
     return {'fmt': fmt, 'ncols': ncols, 'rows': rows, 'm': draw(st.integers(1, 3)),
             'quote_all': draw(st.booleans()), 'final_newline': draw(st.booleans())}
+
+
+def row_strategy_cells(draw, ncols, no_tab):
+    return draw(row_strategy(ncols, no_tab))
+
+
+def expand_row(row):
+    """-> (cells or None, raw line or None)"""
+    if isinstance(row, dict):
+        if 'raw' in row:
+            return None, row['raw']
+        cells = list(row['cells'])
+        j, L = row['long']
+        cells[j] = ((cells[j] or 'v') * (L // max(1, len(cells[j] or 'v')) + 1))[:L]
+        return cells, None
+    return list(row), None
 
 
 class _Logger:
@@ -443,13 +468,20 @@ def stream_batches(lines, header, source, delimiter, m, final_newline=True):
 def oracle_arity(case, rec):
     fmt, ncols, m = case['fmt'], case['ncols'], case['m']
     header = header_for(ncols)
+    expanded = [expand_row(r) for r in case['rows']]
+    rows_cells = [c if c is not None else ['<cut record>'] * (ncols + 1) for c, _ in expanded]
+    if any(isinstance(r, dict) and 'long' in r for r in case['rows']):
+        rec.cls('cell>65536-chars')
+    if any(raw is not None for _, raw in expanded):
+        rec.cls('record-cut-inside-quoted-field')
     if fmt == 'csv':
         sources, delim = ('csv-raw', 'ob-csv'), ','
-        lines = [render_csv(c, case['quote_all']) for c in case['rows']]
+        lines = [raw if raw is not None else render_csv(c, case['quote_all']) for c, raw in expanded]
     else:
         sources, delim = ('ob-raw-dump',), '\t'
-        lines = [render_tsv(c) for c in case['rows']]
-    good = [len(c) == ncols for c in case['rows']]
+        lines = [render_tsv(c) for c, _ in expanded]
+    case = dict(case, rows=rows_cells)
+    good = [raw is None and len(c) == ncols for (c, raw) in expanded]
     nt = any((not g) and ((i > 0 and good[i - 1]) or (i + 1 < len(good) and good[i + 1])) for i, g in enumerate(good))
     rec.nt(nt, key=[fmt, case['rows'], m])
     rec.cls('fmt=' + fmt, 'm=%d' % m, 'rejected=%d' % min(3, good.count(False)))
